@@ -1,5 +1,6 @@
 from __future__ import annotations
 
+from contextlib import suppress
 from contextvars import ContextVar, Token
 from enum import Enum
 from functools import wraps
@@ -78,11 +79,13 @@ class TransactionContextDecorator:
         if not self.current_tx or self._inner:
             self._inner = False
             return
-        if not exc_tb:
-            await self.commit()
-        else:
-            await self.rollback()
-        self.close()
+        try:
+            if not exc_tb:
+                await self.commit()
+            else:
+                await self.rollback()
+        finally:
+            self.close()  # whatever the backends did, the task must leave the transaction
 
     def __call__(self, func: DecoratedFunc) -> DecoratedFunc:
         @wraps(func)
@@ -122,9 +125,23 @@ class Transaction:
         return LockTransactionBackend(backend, serializable=False, timeout=self._timeout)
 
     async def commit(self) -> None:
-        for tx_backend in list(self._backends.values()):
-            await tx_backend.commit()
+        tx_backends = list(self._backends.values())
+        for i, tx_backend in enumerate(tx_backends):
+            try:
+                await tx_backend.commit()
+            except BaseException:
+                # the remaining backends are not committed: drop their overlays and release their locks
+                for other in tx_backends[i + 1 :]:
+                    with suppress(Exception):
+                        await other.rollback()
+                raise
 
     async def rollback(self) -> None:
+        error = None
         for tx_backend in list(self._backends.values()):
-            await tx_backend.rollback()
+            try:
+                await tx_backend.rollback()
+            except Exception as exc:
+                error = error or exc
+        if error:
+            raise error
